@@ -114,7 +114,7 @@ var condCache = map[[2]*ssa.BasicBlock]int8{}
 
 // condFromPred: the value of b's branch condition when b is entered from p, if the φ-inputs of that
 // edge decide it.
-// nonNegative: an unsigned value, an unsigned value widened into a signed type, a length.
+// nonNegative: an unsigned value, an unsigned value widened into a signed type, a length, an up-counter from 0.
 func nonNegative(v ssa.Value) bool {
 	if _, sg, ok := widthOf(v.Type()); ok && !sg {
 		return true
@@ -126,6 +126,11 @@ func nonNegative(v ssa.Value) bool {
 		return ok1 && ok2 && !fs && fb < tb
 	case *ssa.Call:
 		if b, ok := x.Call.Value.(*ssa.Builtin); ok && (b.Name() == "len" || b.Name() == "cap") {
+			return true
+		}
+	case *ssa.Phi:
+		// a counter that starts at constants ≥ 0 and only moves up (`for i := 0; …; i++`)
+		if l, ok := structuralLower(x); ok && l >= 0 {
 			return true
 		}
 	}
@@ -757,6 +762,16 @@ func (w *World) srcExprNorm(pos token.Pos, want func(ast.Node) bool) (string, st
 		var undo []saved
 		names := map[*types.Var]string{}
 		perType := map[string]int{}
+		// a send statement is about the channel: what is sent enters the key by its type only, as a
+		// variable does, whether it is written as a variable, an element or a call (`ch <- x`, `ch <- xs[i]`)
+		var send *ast.SendStmt
+		var sent ast.Expr
+		if st, isSend := n.(*ast.SendStmt); isSend {
+			if _, plain := st.Value.(*ast.Ident); !plain && info.TypeOf(st.Value) != nil {
+				send, sent = st, st.Value
+				st.Value = &ast.Ident{NamePos: sent.Pos(), Name: "_"} // not a variable: left alone below
+			}
+		}
 		ast.Inspect(n, func(m ast.Node) bool {
 			id, ok := m.(*ast.Ident)
 			if !ok {
@@ -785,9 +800,20 @@ func (w *World) srcExprNorm(pos token.Pos, want func(ast.Node) bool) (string, st
 			id.Name = nm
 			return true
 		})
+		if send != nil {
+			ts := strings.TrimPrefix(types.TypeString(info.TypeOf(sent), func(*types.Package) string { return "" }), "*")
+			perType[ts]++
+			send.Value.(*ast.Ident).Name = "‹" + ts + "›"
+			if perType[ts] > 1 {
+				send.Value.(*ast.Ident).Name += fmt.Sprint(perType[ts])
+			}
+		}
 		norm := exprText(w.Fset, n)
 		for _, u := range undo {
 			u.id.Name = u.name
+		}
+		if send != nil {
+			send.Value = sent
 		}
 		return raw, norm
 	}
